@@ -3,6 +3,7 @@
   (`Atomman/Generated/Integrators.lean`, regenerated from /repo on every run).
 -/
 import Atomman.Generated.Integrators
+import Atomman.C20
 import Mathlib.Tactic.Module
 import Mathlib.Tactic.Ring
 import Mathlib.Tactic.FieldSimp
@@ -123,6 +124,47 @@ theorem climb_fixed_point (gradE : V → V) (x τ : V) (hτ : dot τ τ = 1)
   exact neg_eq_zero.mp h2.symm
 
 end climb
+
+/-! ### control flow of `relax` (hand-written model `phaseSteps`, tied by correspondence) -/
+
+theorem phaseSteps_le {L : Type} [LT L] [DecidableLT L] (tol : L) (n : Nat) (ds : List L) :
+    phaseSteps tol n ds ≤ n := by
+  induction n generalizing ds with
+  | zero => simp [phaseSteps]
+  | succ n ih =>
+    cases ds with
+    | nil => simp [phaseSteps]
+    | cons d ds =>
+      simp only [phaseSteps]
+      split
+      · omega
+      · have := ih ds; omega
+
+/-- the climbing phase performs at least one step whenever climbing was requested — whatever the
+    relaxation phase did (in particular also when relaxation stopped by reaching the tolerance). -/
+theorem climb_runs_when_requested {L : Type} [LT L] [DecidableLT L] (tol : L) (r c : Nat) (dsR dsC : List L)
+    (hc : 0 < c) (hds : dsC ≠ []) : 1 ≤ (relaxCounts tol r c dsR dsC).2 := by
+  obtain ⟨c, rfl⟩ : ∃ k, c = k + 1 := ⟨c - 1, by omega⟩
+  cases dsC with
+  | nil => exact absurd rfl hds
+  | cons d ds =>
+    simp only [relaxCounts, phaseSteps]
+    split <;> omega
+
+/-- a phase stops right after the first step whose displacement is below the tolerance, and not before. -/
+theorem phaseSteps_stops_at_first_small {L : Type} [LT L] [DecidableLT L] (tol : L) (n : Nat) (pre : List L) (d : L)
+    (post : List L) (hpre : ∀ x ∈ pre, ¬ x < tol) (hd : d < tol) (hn : pre.length < n) :
+    phaseSteps tol n (pre ++ d :: post) = pre.length + 1 := by
+  induction pre generalizing n with
+  | nil =>
+    obtain ⟨n, rfl⟩ : ∃ k, n = k + 1 := ⟨n - 1, by simp at hn; omega⟩
+    simp [phaseSteps, hd]
+  | cons x xs ih =>
+    obtain ⟨n, rfl⟩ : ∃ k, n = k + 1 := ⟨n - 1, by simp at hn; omega⟩
+    have hx : ¬ x < tol := hpre x (by simp)
+    simp only [List.cons_append, phaseSteps, hx, if_false, List.length_cons]
+    rw [ih n (fun y hy => hpre y (by simp [hy])) (by simp at hn; omega)]
+    omega
 
 /-! non-vacuity: concrete instances of the hypotheses -/
 example : (∀ t : ℚ, (fun v : ℚ => 1 + 2 * v + 3 * v^2 + 4 * v^3) (0 + t • (1:ℚ)) = 1 + 2 * t + 3 * t^2 + 4 * t^3) := by
